@@ -976,5 +976,9 @@ def prefetch_database(query, database, threshold_bp, *, estimate_ani_ci=False):
             threshold_bp=threshold_bp,
             estimate_ani_ci=estimate_ani_ci,
         )
-        assert result.pass_threshold
+        # Index.prefetch() converts threshold_bp with the query's own scaled and
+        # size; after downsampling to a coarser database the overlap can be below
+        # threshold_bp. Such a row is not a match: skip it instead of asserting.
+        if not result.pass_threshold:
+            continue
         yield result
